@@ -28,6 +28,7 @@ for _n in (1, 2, 3, 4):
     RULES["path%d" % _n] = _HEAD + (_HOSTS % b"+") + (b"(p:[^\\|]+\\|){%d})" % _n)
 
 OP_TIMEOUT = float(os.environ.get("VERIF_OP_TIMEOUT", "10"))
+BYSTANDER = os.environ.get("VERIF_BYSTANDER", "1") == "1"
 
 
 class OpTimeout(BaseException):
@@ -132,15 +133,18 @@ def unx(s):
     return bytes.fromhex(s[1:])
 
 
+SESSION_ENCODING = ["utf-8"]      # the `encoding=` the index of the current session was constructed with
+
+
 def as_api_arg(b):
     """the API accepts `str` as well as `bytes` and encodes it itself: hand over text for about half of the
     arguments that are valid UTF-8 (chosen by a hash of the value, so both back-ends and replays agree)"""
     if STR_ARGS and fnv(b) % 2 == 0:
         try:
-            t = b.decode("utf-8")
-            if t.encode("utf-8") == b:
+            t = b.decode(SESSION_ENCODING[0])
+            if t.encode(SESSION_ENCODING[0]) == b:
                 return t
-        except UnicodeDecodeError:
+        except (UnicodeDecodeError, UnicodeEncodeError):
             pass
     return b
 
@@ -153,15 +157,39 @@ def unx_arg(s):
         return v
     if s[0] == "s":
         try:
-            t = v.decode("utf-8")
-            return t if t.encode("utf-8") == v else v
-        except UnicodeDecodeError:
+            t = v.decode(SESSION_ENCODING[0])
+            return t if t.encode(SESSION_ENCODING[0]) == v else v
+        except (UnicodeDecodeError, UnicodeEncodeError):
             return v
     return as_api_arg(v)
 
 
+_SHAPE_CALLS = [0]
+ONE_SHOT = os.environ.get("VERIF_ONE_SHOT", "1") == "1"
+
+
+def as_iterable(items):
+    """the API documents its list arguments as iterables: hand them over as a list, a tuple, or a one-shot generator in turn"""
+    _SHAPE_CALLS[0] += 1
+    k = _SHAPE_CALLS[0] % 3
+    if k == 1 or not ONE_SHOT:
+        return list(items)
+    if k == 2:
+        return tuple(items)
+    return (x for x in list(items))
+
+
 def unx_arg_list(s):
-    return [as_api_arg(unx(x)) for x in split_list(s)]
+    """a list argument the API indexes or walks more than once: a list or a tuple"""
+    _SHAPE_CALLS[0] += 1
+    items = [unx_arg(x) for x in split_list(s)]
+    return tuple(items) if _SHAPE_CALLS[0] % 2 == 0 else items
+
+
+def unx_arg_iter(s):
+    """a list argument the API walks once (pages, links, prefixes of a creation / deletion / page query, targets of a crawled
+    page): list, tuple or one-shot generator in turn"""
+    return as_iterable([unx_arg(x) for x in split_list(s)])
 
 
 STR_ARGS = os.environ.get("VERIF_STR_ARGS", "1") == "1"
@@ -206,6 +234,54 @@ DEFAULTS = {
     "paginate_webentity_pages": {"crawled_only": False, "page_count": None, "pagination_token": None},
 }
 _KW_CALLS = [0]
+# documented parameter order (pinned signatures): every third call hands the keyword arguments over positionally
+ORDER = {
+    "add_page": ["lru", "crawled"], "add_pages": ["lrus", "crawled"],
+    "get_page_degree": ["lru", "weighted"], "get_page_indegree": ["lru", "weighted"], "get_page_outdegree": ["lru", "weighted"],
+    "get_page_links": ["lru", "include_inbound", "include_internal", "include_outbound"],
+    "get_webentities_links": ["out", "include_auto"], "get_webentities_links_iter": ["out", "include_auto"],
+    "get_webentities_links_slow": ["out", "include_auto"], "get_webentities_links_slow_iter": ["out", "include_auto"],
+    "get_webentities_inlinks": ["include_auto"], "get_webentities_outlinks": ["include_auto"],
+    "get_webentities_inlinks_iter": ["include_auto"], "get_webentities_outlinks_iter": ["include_auto"],
+    "get_webentity_most_linked_pages": ["weid", "prefixes", "pages_count", "max_depth"],
+    "get_webentity_most_linked_pages_iter": ["weid", "prefixes", "pages_count", "max_depth"],
+    "get_webentity_pagelinks": ["weid", "prefixes", "include_inbound", "include_internal", "include_outbound"],
+    "get_webentity_pagelinks_iter": ["weid", "prefixes", "include_inbound", "include_internal", "include_outbound"],
+    "paginate_webentity_pagelinks": ["weid", "prefixes", "include_internal", "include_outbound", "source_page_count", "pagination_token"],
+    "paginate_webentity_pages": ["weid", "prefixes", "page_count", "pagination_token", "crawled_only"],
+    "links_iter": ["out"], "delete_webentity": ["weid", "weid_prefixes", "check_for_corruption"],
+    "add_webentity_creation_rule": ["rule_prefix", "pattern", "write_in_trie"],
+}
+_STYLE = [0]
+
+
+class ArgStyle(object):
+    """the index as a caller sees it: keyword arguments are handed over positionally, in the documented order, on every
+    third call (when those given form an initial run of the remaining parameters)"""
+
+    def __init__(self, t):
+        object.__setattr__(self, "_t", t)
+
+    def __getattr__(self, name):
+        f = getattr(self._t, name)
+        order = ORDER.get(name)
+        if order is None or not callable(f):
+            return f
+
+        def g(*a, **k):
+            _STYLE[0] += 1
+            if _STYLE[0] % 3 == 0 and k:
+                names = order[len(a):]
+                n = 0
+                while n < len(names) and names[n] in k:
+                    n += 1
+                if n == len(k):
+                    return f(*a, *[k[x] for x in names[:n]])
+            return f(*a, **k)
+        return g
+
+    def __setattr__(self, name, value):
+        setattr(self._t, name, value)
 
 
 def kw(name, **k):
@@ -256,6 +332,44 @@ class Impl(object):
         self.rules = None
         self.saved = None
 
+    def enc_kw(self):
+        return {"encoding": self.enc} if getattr(self, "enc", None) else {}
+
+    def construct(self, folder, overwrite=False):
+        """Traph(...) the way callers write it: by keyword, or positionally in the documented order
+        (folder, overwrite, encoding, debug, default rule, rules), in turn"""
+        self.ctor_calls = getattr(self, "ctor_calls", 0) + 1
+        if self.ctor_calls % 2 == 0:
+            return Traph(folder, overwrite, getattr(self, "enc", None) or "utf-8", False, self.dflt, self.rules)
+        k = dict(folder=folder, default_webentity_creation_rule=self.dflt, webentity_creation_rules=self.rules, **self.enc_kw())
+        if overwrite:
+            k["overwrite"] = True
+        return Traph(**k)
+
+    def bystander(self):
+        """a second, unrelated index alive in the same process (applications keep several corpora open): what happens to
+        it must not reach the index under test"""
+        try:
+            if getattr(self, "other", None) is None:
+                self.other = Traph(folder=None, default_webentity_creation_rule=RULES["domain"], webentity_creation_rules={})
+                self.other_n = 0
+            self.other_n += 1
+            o, n = self.other, self.other_n
+            site = "s:http|h:org|h:bystander%d|" % (n % 7)
+            o.add_page(site + "p:%d|" % n, crawled=bool(n % 2))
+            o.add_links([(site + "p:%d|" % n, site + "p:%d|" % (n // 2))])
+            if n % 5 == 0:
+                o.create_webentity([site + "p:we%d|" % n])
+            if n % 9 == 0:
+                o.get_webentities_links()
+                o.expand_prefix(site)
+                for _ in o.pages_iter():
+                    break
+            if n % 40 == 0:
+                o.clear()
+        except Exception:
+            pass
+
     # -- lifecycle
     def close(self):
         if self.t is not None:
@@ -288,6 +402,11 @@ class Impl(object):
         if getattr(self, "poisoned", False) and not line.startswith("init "):
             return "err other Timeout", 0, FNV_INIT          # an earlier call of this session never returned
         self.poisoned = False
+        self.n_exec = getattr(self, "n_exec", 0) + 1
+        if BYSTANDER and self.n_exec % 3 == 0 and not line.startswith(("co ", "cut", "uncut")):
+            saved = list(WRITE_LOG), list(FULL_LOG)
+            self.bystander()
+            WRITE_LOG[:], FULL_LOG[:] = saved
         signal.signal(signal.SIGALRM, _on_alarm)
         signal.setitimer(signal.ITIMER_REAL, OP_TIMEOUT)
         try:
@@ -308,31 +427,32 @@ class Impl(object):
 
     def _exec(self, w):
         op = w[0]
-        t = self.t
+        t = ArgStyle(self.t) if self.t is not None else None
         if op == "init":
             self.close()
             _KW_CALLS[0] = 0
+            _SHAPE_CALLS[0] = 0
+            _STYLE[0] = 0
             del FULL_LOG[:]
-            self.backend = w[1]
+            self.backend, _, enc = w[1].partition(":")          # `file:latin-1`: the constructor's `encoding=` (the model reads bytes)
+            self.enc = enc or None
+            SESSION_ENCODING[0] = enc or "utf-8"
             self.dflt = RULES[w[2]]
             self.rules = parse_rules(w[3])
             if self.backend == "file":
                 self.folder = tempfile.mkdtemp(dir=self.scratch)
                 shutil.rmtree(self.folder)
-                self.t = Traph(folder=self.folder, default_webentity_creation_rule=self.dflt,
-                               webentity_creation_rules=self.rules)
+                self.t = self.construct(self.folder)
             else:
                 self.folder = None
-                self.t = Traph(folder=None, default_webentity_creation_rule=self.dflt,
-                               webentity_creation_rules=self.rules)
+                self.t = self.construct(None)
             return "ok"
         if op == "reopen":
             assert self.backend == "file"
             self.close()
             self.dflt = RULES[w[1]]
             self.rules = parse_rules(w[2])
-            self.t = Traph(folder=self.folder, default_webentity_creation_rule=self.dflt,
-                           webentity_creation_rules=self.rules)
+            self.t = self.construct(self.folder)
             return "ok"
         if op == "overwrite":
             # close, then construct again on the same folder (or in memory) with overwrite=True: a fresh index
@@ -340,8 +460,7 @@ class Impl(object):
             del FULL_LOG[:]
             self.dflt = RULES[w[1]]
             self.rules = parse_rules(w[2])
-            self.t = Traph(folder=self.folder, overwrite=True, default_webentity_creation_rule=self.dflt,
-                           webentity_creation_rules=self.rules)
+            self.t = self.construct(self.folder, overwrite=True)
             return "ok"
         if op == "clear":
             d = None if w[1] == "-" else RULES[w[1]]
@@ -358,13 +477,13 @@ class Impl(object):
             t.remove_webentity_creation_rule(unx_arg(w[1]))
             return "ok"
         if op == "create":
-            return render_report(t.create_webentity(unx_arg_list(w[1])))
+            return render_report(t.create_webentity(unx_arg_iter(w[1])))
         if op == "delete":
-            t.delete_webentity(int(w[1]), unx_arg_list(w[2]))
+            t.delete_webentity(int(w[1]), unx_arg_iter(w[2]))
             return "ok"
         if op == "deleteu":
             self.du_calls = getattr(self, "du_calls", 0) + 1
-            t.delete_webentity([None, 0, 7][self.du_calls % 3], unx_arg_list(w[1]), check_for_corruption=False)
+            t.delete_webentity([None, 0, 7][self.du_calls % 3], unx_arg_iter(w[1]), check_for_corruption=False)
             return "ok"
         if op == "addruleram":
             return render_report(t.add_webentity_creation_rule(unx_arg(w[1]), RULES[w[2]], write_in_trie=False))
@@ -388,16 +507,16 @@ class Impl(object):
         if op == "addpage":
             return render_report(t.add_page(unx_arg(w[1]), **kw("add_page", crawled=(w[2] == "1"))))
         if op == "addpages":
-            return render_report(t.add_pages(unx_arg_list(w[1]), **kw("add_pages", crawled=(w[2] == "1"))))
+            return render_report(t.add_pages(unx_arg_iter(w[1]), **kw("add_pages", crawled=(w[2] == "1"))))
         if op == "addlinks":
-            links = [tuple(unx_arg(x) for x in st.split(">")) for st in split_list(w[1])]
+            links = as_iterable([tuple(unx_arg(x) for x in st.split(">")) for st in split_list(w[1])])
             return render_report(t.add_links(links))
         if op == "batch":
             data = {}
             if w[1] != "-":
                 for e in w[1].split(";"):
                     a, ts = e.split(">")
-                    data[unx_arg(a)] = [unx_arg(x) for x in ts.split(",")] if ts else []
+                    data[unx_arg(a)] = as_iterable([unx_arg(x) for x in ts.split(",")] if ts else [])
             return render_report(t.index_batch_crawl(data))
         if op == "?":
             return self._query(w[1:])
@@ -419,7 +538,7 @@ class Impl(object):
 
     # -- C16: generators advanced one yield at a time
     def _co(self, w):
-        t = self.t
+        t = ArgStyle(self.t)
         if not hasattr(self, "cos"):
             self.cos = {}
         if w[0] == "new":
@@ -429,12 +548,12 @@ class Impl(object):
                 if args[0] != "-":
                     for e in args[0].split(";"):
                         a, ts = e.split(">")
-                        data[unx_arg(a)] = [unx_arg(x) for x in ts.split(",")] if ts else []
+                        data[unx_arg(a)] = as_iterable([unx_arg(x) for x in ts.split(",")] if ts else [])
                 g, render = t.index_batch_crawl_iter(data, 1), render_report
             elif kind == "rule":
                 g, render = t.add_webentity_creation_rule_iter(unx_arg(args[0]), RULES[args[1]]), render_report
             elif kind == "pages":
-                g = t.get_webentity_pages_iter(int(args[0]), unx_arg_list(args[1]))
+                g = t.get_webentity_pages_iter(int(args[0]), unx_arg_iter(args[1]))
                 render = lambda r: "ok " + brack([hx(p["lru"]) + ":" + b01(p["crawled"]) for p in r])  # noqa
             elif kind == "net":
                 self.net_calls = getattr(self, "net_calls", 0) + 1
@@ -445,7 +564,7 @@ class Impl(object):
                     g = t.get_webentities_links_iter(**kw("get_webentities_links_iter", out=(args[0] == "1"), include_auto=(args[1] == "1")))
                 render = render_graph
             elif kind == "crawled":
-                g = t.get_webentity_crawled_pages_iter(int(args[0]), unx_arg_list(args[1]))
+                g = t.get_webentity_crawled_pages_iter(int(args[0]), unx_arg_iter(args[1]))
                 render = lambda r: "ok " + brack([hx(p["lru"]) + ":" + b01(p["crawled"]) for p in r])  # noqa
             elif kind == "mostlinked":
                 g = t.get_webentity_most_linked_pages_iter(int(args[0]), unx_arg_list(args[1]), **kw(
@@ -515,7 +634,7 @@ class Impl(object):
         dflt = self.t.default_webentity_creation_rule.pattern
         saved_log = list(FULL_LOG)
         try:
-            t2 = Traph(folder=folder, default_webentity_creation_rule=dflt, webentity_creation_rules=rules)
+            t2 = Traph(folder=folder, default_webentity_creation_rule=dflt, webentity_creation_rules=rules, **self.enc_kw())
         except TraphException:
             FULL_LOG[:] = saved_log
             shutil.rmtree(folder, ignore_errors=True)
@@ -543,7 +662,7 @@ class Impl(object):
         return "ok"
 
     def _query(self, w):
-        t = self.t
+        t = ArgStyle(self.t)
         q = w[0]
         if q == "retrieveprefix":
             return "ok " + hx(t.retrieve_prefix(unx_arg(w[1])))
@@ -555,10 +674,10 @@ class Impl(object):
         if q == "webyprefix":
             return "ok %d" % t.get_webentity_by_prefix(unx_arg(w[1]))
         if q == "pages":
-            r = t.get_webentity_pages(int(w[1]), unx_arg_list(w[2]))
+            r = t.get_webentity_pages(int(w[1]), unx_arg_iter(w[2]))
             return "ok " + brack([hx(p["lru"]) + ":" + b01(p["crawled"]) for p in r])
         if q == "crawledpages":
-            r = t.get_webentity_crawled_pages(int(w[1]), unx_arg_list(w[2]))
+            r = t.get_webentity_crawled_pages(int(w[1]), unx_arg_iter(w[2]))
             return "ok " + brack([hx(p["lru"]) + ":" + b01(p["crawled"]) for p in r])
         if q == "paginate":
             r = t.paginate_webentity_pages(int(w[1]), unx_arg_list(w[2]), **kw(
